@@ -109,3 +109,99 @@ pub proof fn lemma_idx_strict(l: &LexedStr<'_>, a: int, b: int)
     lemma_idx_step(l, a);
     lemma_idx_mono(l, a + 1, b);
 }
+
+// ---- Output as the builder sees it (trusted: output.rs decodes the 32-bit events; Kani harness in the thorough tier) ----
+#[verifier::external_body] pub struct Output { _p: u8 }
+#[verifier::external_body] pub struct OutIter<'a> { _p: std::marker::PhantomData<&'a str> }
+impl Output {
+    /// the traversal steps, in order
+    pub uninterp spec fn steps(&self) -> Seq<Step<'_>>;
+    /// output.rs: `self.event.iter().map(|&event| decode(event))`
+    #[verifier::external_body] pub fn iter(&self) -> (r: OutIter<'_>) ensures r.rest() == self.steps() { unimplemented!() }
+}
+impl<'a> OutIter<'a> {
+    pub uninterp spec fn rest(&self) -> Seq<Step<'a>>;
+    #[verifier::external_body] pub fn next(&mut self) -> (r: Option<Step<'a>>)
+        ensures old(self).rest().len() == 0 ==> r is None && final(self).rest() == old(self).rest(),
+                old(self).rest().len() > 0 ==> r == Some(old(self).rest()[0]) && final(self).rest() == old(self).rest().skip(1),
+    { unimplemented!() }
+}
+/// number of non-trivia raw tokens in [pos, ntok)
+pub open spec fn nnt(l: &LexedStr<'_>, pos: int) -> int
+    decreases l.ntok() - pos
+{
+    if pos >= l.ntok() || pos < 0 { 0 } else { (if trivia(l.kind@[pos]) { 0int } else { 1int }) + nnt(l, pos + 1) }
+}
+/// raw tokens the remaining Token steps will consume
+pub open spec fn tok_sum(steps: Seq<Step<'_>>) -> int
+    decreases steps.len()
+{
+    if steps.len() == 0 { 0 } else { (if steps[0] is Token { steps[0]->n_input_tokens as int } else { 0int }) + tok_sum(steps.skip(1)) }
+}
+pub proof fn lemma_nnt_bounds(l: &LexedStr<'_>, pos: int)
+    requires 0 <= pos <= l.ntok(),
+    ensures 0 <= nnt(l, pos) <= l.ntok() - pos,
+    decreases l.ntok() - pos
+{ if pos < l.ntok() { lemma_nnt_bounds(l, pos + 1); } }
+/// skipping trivia does not change the count, and stays inside the table
+pub proof fn lemma_nnt_skip(l: &LexedStr<'_>, pos: int, q: int)
+    requires 0 <= pos <= q <= skip_trivia(l, pos), pos <= l.ntok(),
+    ensures nnt(l, q) == nnt(l, pos), q <= l.ntok(), skip_trivia(l, q) == skip_trivia(l, pos),
+    decreases l.ntok() - pos
+{
+    if pos < q {
+        if pos < l.ntok() && trivia(l.kind@[pos]) { lemma_nnt_skip(l, pos + 1, q); }
+    }
+}
+pub proof fn lemma_skip_le(l: &LexedStr<'_>, pos: int)
+    requires 0 <= pos <= l.ntok(),
+    ensures pos <= skip_trivia(l, pos) <= l.ntok(),
+    decreases l.ntok() - pos
+{ if pos < l.ntok() && trivia(l.kind@[pos]) { lemma_skip_le(l, pos + 1); } }
+/// consuming n raw tokens lowers the count by at most n
+pub proof fn lemma_nnt_adv(l: &LexedStr<'_>, pos: int, n: int)
+    requires 0 <= pos, 0 <= n, pos + n <= l.ntok(),
+    ensures nnt(l, pos + n) >= nnt(l, pos) - n,
+    decreases n
+{ if n > 0 { lemma_nnt_adv(l, pos + 1, n - 1); } }
+/// every diagnostic handed to the sink sits at the start of a raw token (or at the end of the text)
+pub open spec fn errors_on_token_starts(log: Seq<GStep>, l: &LexedStr<'_>) -> bool {
+    forall|i: int| 0 <= i < log.len() && (#[trigger] log[i]) is Error ==> exists|k: int| 0 <= k <= l.ntok() && log[i]->pos == l.start@[k]
+}
+
+pub proof fn lemma_tok_sum_nonneg(steps: Seq<Step<'_>>)
+    ensures tok_sum(steps) >= 0,
+    decreases steps.len()
+{ if steps.len() > 0 { lemma_tok_sum_nonneg(steps.skip(1)); } }
+/// a step that is not a diagnostic keeps the placement of the diagnostics handed over so far
+pub broadcast proof fn lemma_errs_push(log: Seq<GStep>, l: &LexedStr<'_>, s: GStep)
+    requires errors_on_token_starts(log, l), !(s is Error),
+    ensures #[trigger] errors_on_token_starts(log.push(s), l)
+{
+    assert forall|i: int| 0 <= i < log.push(s).len() && (#[trigger] log.push(s)[i]) is Error implies exists|k: int| 0 <= k <= l.ntok() && log.push(s)[i]->pos == l.start@[k] by {
+        if i < log.len() { assert(log.push(s)[i] == log[i]); }
+    }
+}
+
+/// where the builder stands after these steps, up to pending trivia: a Token step consumes the
+/// pending trivia and then exactly its n_input_tokens raw tokens; no other step consumes a non-trivia token
+pub open spec fn adv_pos(l: &LexedStr<'_>, steps: Seq<Step<'_>>, pos: int) -> int
+    decreases steps.len()
+{
+    if steps.len() == 0 { pos }
+    else { adv_pos(l, steps.skip(1), if steps[0] is Token { skip_trivia(l, pos) + steps[0]->n_input_tokens } else { pos }) }
+}
+/// positions that differ only by pending trivia lead to positions that differ only by pending trivia
+pub proof fn lemma_adv_pos_skip_eq(l: &LexedStr<'_>, steps: Seq<Step<'_>>, p1: int, p2: int)
+    requires skip_trivia(l, p1) == skip_trivia(l, p2),
+    ensures skip_trivia(l, adv_pos(l, steps, p1)) == skip_trivia(l, adv_pos(l, steps, p2)),
+    decreases steps.len()
+{
+    if steps.len() > 0 {
+        if steps[0] is Token { } else { lemma_adv_pos_skip_eq(l, steps.skip(1), p1, p2); }
+    }
+}
+pub proof fn lemma_skip_idem(l: &LexedStr<'_>, pos: int)
+    ensures skip_trivia(l, skip_trivia(l, pos)) == skip_trivia(l, pos),
+    decreases l.ntok() - pos
+{ if 0 <= pos < l.ntok() && trivia(l.kind@[pos]) { lemma_skip_idem(l, pos + 1); } }
